@@ -123,3 +123,43 @@ def ref_identifiable(g: GSpec, X, Y) -> bool:
         return True  # line 6
     Sp = next(d for d in cg if S < d)
     return ref_identifiable(g.subgraph(Sp), X & Sp, Y)  # line 7
+
+
+def ref_trace(g: GSpec, X, Y, after7: int = 0, trace=None):
+    """Like ref_identifiable, but also records which lines fire: items (line, depth of line-7 nesting, |district|)."""
+    trace = [] if trace is None else trace
+    X, Y = frozenset(X), frozenset(Y)
+    V = frozenset(g.nodes)
+    if not X:
+        trace.append((1, after7, 0))
+        return True, trace
+    an = g.ancestors(Y)
+    if V - an:
+        trace.append((2, after7, 0))
+        return ref_trace(g.subgraph(an), X & an, Y, after7, trace)
+    W = (V - X) - g.ancestors(Y, removed_in=X)
+    if W:
+        trace.append((3, after7, 0))
+        return ref_trace(g, X | W, Y, after7, trace)
+    cx = g.districts(within=V - X)
+    if len(cx) > 1:
+        trace.append((4, after7, len(cx)))
+        ok = True
+        for S in cx:
+            r, _ = ref_trace(g, V - S, S, after7, trace)
+            ok = ok and r
+        return ok, trace
+    S = cx[0]
+    cg = g.districts()
+    if len(cg) == 1:
+        trace.append((5, after7, 0))
+        return False, trace
+    if S in cg:
+        # position of the district members in the topological order matters for derived conditionals
+        topo = g.topo()
+        not_last = sum(1 for v in S if topo.index(v) < len(topo) - 1)
+        trace.append((6, after7, len(S) * 10 + min(not_last, 9)))
+        return True, trace
+    Sp = next(d for d in cg if S < d)
+    trace.append((7, after7, len(Sp)))
+    return ref_trace(g.subgraph(Sp), X & Sp, Y, after7 + 1, trace)
